@@ -34,7 +34,7 @@ TCall == /\ l <= To /\ TraceLog[l].op # "Reset"
          /\ l' = l + 1
 
 TReset == /\ l <= To /\ TraceLog[l].op = "Reset"
-          /\ tbl' = <<>> /\ oth' = <<>> /\ its' = [i \in ItIds |-> NoIt] /\ last' = [op |-> "Init"]
+          /\ tbl' = <<>> /\ oth' = <<>> /\ its' = [i \in ItIds |-> NoIt] /\ last' = [op |-> "Init"] /\ ord' = Ord0
           /\ l' = l + 1
 
 TraceNext == TCall \/ TReset
